@@ -16,5 +16,6 @@ CONSTANTS
   MaxClock = 2
 SPECIFICATION SSpec
 CONSTRAINT ClockBound
+VIEW SView
 INVARIANT Inv_Fresh
 CHECK_DEADLOCK FALSE
